@@ -86,7 +86,8 @@ def check_case(out, rng, px, py, par_kw, sess, pending):
   d3 = tbrmmdiagnostics.TBRMMDiagnostics(py + k, par)
   d3.x = px + rng.choice([0.0, k])
   # representing the shifted values costs about one ulp of the level per point: the tolerance follows the level
-  shift_tol = max(1e-8, 50 * abs(k) * 2.3e-16 / max(float(np.std(py)), 1e-300))
+  # ... and what it perturbs is the residual of the fit, so the residual s.d. (not the spread of the series) is the yardstick
+  shift_tol = max(1e-8, 50 * abs(k) * 2.3e-16 / max(min(float(np.std(py)), math.sqrt(max(s2, 0.0))), 1e-300))
   if not en.close(float(d3.required_impact), ri, shift_tol):
     out.oracle_violation(dict(facts, symptom='not-shift-invariant'), dict(case, k=k),
                          f'a level shift of {k} changes required impact {ri} -> {float(d3.required_impact)}')
